@@ -83,7 +83,9 @@ fn extract_bracket_expr(pattern: &str) -> Option<(String, &str)> {
 
                     if matches!(delim, '.' | '=' | ':') {
                         let rest = chars.as_str();
-                        let end = rest.find([delim, ']'])? + 2;
+                        // the closing delimiter is the two-character sequence "<delim>]"
+                        let close: String = [delim, ']'].iter().collect();
+                        let end = rest.find(&close)? + 2;
                         expr.push_str(&rest[..end]);
                         chars = rest[end..].chars();
                     }
